@@ -22,9 +22,11 @@ class Context(object):
         self.project = Project(root)
         self.project.add_controls(os.path.join(VERIF, 'petlsa', 'controls'))
         self.res = Resolver(self.project)
-        from . import inline
+        from . import inline, normalise
+        self.peeled = normalise.apply(self.project) if not os.environ.get('PETLSA_NO_INLINE') else []
         self.inlined = inline.apply(self.project, self.res) if not os.environ.get('PETLSA_NO_INLINE') else (0, [])
-        if self.inlined[0]:
+        self.unaliased = normalise.apply_aliases(self.project) if not os.environ.get('PETLSA_NO_INLINE') else []
+        if self.inlined[0] or self.unaliased:
             # resolution caches were filled while inlining: start from a clean resolver
             self.res = Resolver(self.project)
         self.an = Analyzer(self.project, self.res)
@@ -32,6 +34,10 @@ class Context(object):
         if self.inlined[0]:
             self.report.note('expanded %d function(s) by inlining helpers unknown to the rules: %s'
                              % (self.inlined[0], ', '.join(self.inlined[1])))
+        if self.unaliased:
+            self.report.note('wrote local aliases of view attributes back in: %s' % ', '.join(self.unaliased))
+        if self.peeled:
+            self.report.note('peeled the literal tail of chain(...) loops in: %s' % ', '.join(self.peeled))
         self._views = None
 
     @property
@@ -60,6 +66,15 @@ class Context(object):
                                        for p in prefixes):
                 out.extend(m.functions.values())
         return out
+
+    def attempt(self, rule_fn, *args, **kwargs):
+        """Run one rule; an AnalysisError inside it (vanished anchor, population floor) is recorded and the remaining
+        rules still run, so that a violation another rule can see is not hidden behind exit 2."""
+        try:
+            return rule_fn(*args, **kwargs)
+        except AnalysisError as e:
+            self.report.errors.append(str(e))
+            return None
 
     def need(self, cond, what):
         if not cond:
@@ -94,7 +109,15 @@ def run_property(prop, tier, root, write=True):
         raise
     ctx = Context(root, prop, tier)
     mod.run(ctx)
-    verify_controls(ctx, mod)
+    if ctx.report.errors:
+        # a rule lost its anchor: its controls cannot be expected to be flagged; the run ends with exit 1 if another
+        # rule reported a violation and with exit 2 otherwise
+        try:
+            verify_controls(ctx, mod)
+        except AnalysisError as e:
+            ctx.report.errors.append(str(e))
+    else:
+        verify_controls(ctx, mod)
     if tier == 'thorough' and write and not os.environ.get('PETLSA_NO_VALIDATION'):
         # checker validation on scratch copies (self-test mutants + stored seeded changes): reported, not gated
         try:
